@@ -1,7 +1,7 @@
 """C06 - time_slice keeps exactly the presence inside the window, in a new graph."""
 import gen
 from props.base import PropBase, bigio_case, with_bigio, tup
-from props.graphcommon import state_case, known_nodes, has_probes, Truth
+from props.graphcommon import state_case, known_nodes, has_probes, Truth, run_cutting_window
 from props.suboracles import o_canon, o_snap, o_stream
 from props.c02 import expected as q_expected
 from props.graphcommon import query_probes
@@ -49,6 +49,11 @@ class C06(PropBase):
             for _ in range(4):
                 a, b = sorted((rnd.choice(ts), rnd.choice(ts)))
                 wins.append((a, rnd.choice([b, b, None])))
+            w = run_cutting_window(rnd, tup(c['hist']))
+            if 'many_runs' in c.get('classes', []):
+                wins = wins[:2]          # long timelines are probed instant by instant: two windows keep the program affordable
+            if w is not None and rnd.random() < 0.5:
+                wins[rnd.randrange(len(wins))] = w
             wins.append((ts[-1], ts[0]))  # invalid unless equal
             c['win'] = wins
             a, b = sorted((rnd.choice(ts), rnd.choice(ts)))
